@@ -445,6 +445,38 @@ PlanModel(s, fl) == LET ps == Patches(s, fl)   B(i) == ViewByte(s, ps, i) IN Mod
 Rand == TLCEval(IF "RAND" \in DOMAIN IOEnv /\ IOEnv.RAND # "" THEN JsonDeserialize(IOEnv.RAND) ELSE <<>>)
 RandModel(k) == LET B(i) == Rand[k][i + 1] IN Model(B, Len(Rand[k]))
 
+(* ------------------- abstract class of an arbitrary value -------------- *)
+\* the class vocabulary of the walker witnesses (FaultWalk.tla) for a value that no CorruptField produced: a byte
+\* substitution inside an ELF header field, the header of a random string.  "b31" stands for "far beyond the file"
+\* (any value > size + 1), "m32" for all ones, "other" for a value inside the file that is no class.
+AClass(d, ent, fsize) ==
+  LET v == DNum(d) IN
+  IF \A i \in 1..Len(d) : d[i] = 255 THEN "m32"
+  ELSE IF v = 0 THEN "zero" ELSE IF v = 1 THEN "one" ELSE IF ent > 1 /\ v = ent - 1 THEN "entm1"
+  ELSE IF v = fsize THEN "fsize" ELSE IF v = fsize + 1 THEN "fsize1" ELSE IF v > fsize + 1 THEN "b31" ELSE "other"
+EhdrFieldAt(cls, pos) == {fi \in 1..Len(EhdrF) : 16 + OffIn(EhdrF, cls, fi) <= pos /\ pos < 16 + OffIn(EhdrF, cls, fi) + Width(EhdrF[fi][2], cls)}
+HdrClass(B(_), cls, le, fi, fsize) ==
+  LET name == EhdrF[fi][1] IN
+  [role |-> "ehdr", idx |-> 0, nrec |-> 1, field |-> name,
+   cls |-> AClass(Dg(B, 16 + OffIn(EhdrF, cls, fi), Width(EhdrF[fi][2], cls), le), EntOf([kind |-> "ehdr", role |-> "ehdr"], name, cls), fsize)]
+\* the ELF header field a Substitute fault lands in, with the class of the value it leaves there
+SubstHit(s, f) ==
+  LET L == SeedTab[s].L   hit == EhdrFieldAt(L.cls, f[2])   ps == <<PatchOf(s, f)>>   B(i) == ViewByte(s, ps, i) IN
+  IF hit = {} \/ L.size < 16 + SizeOf(EhdrF, L.cls) THEN <<>> ELSE <<HdrClass(B, L.cls, L.le, CHOOSE fi \in hit : TRUE, L.size)>>
+\* the table-related header fields of a random string (when it has a whole ELF header)
+RandHits(k) ==
+  LET B(i) == Rand[k][i + 1]   L == Len(Rand[k]) IN
+  IF L < 6 \/ B(4) \notin {1, 2} \/ B(5) \notin {1, 2} THEN <<>>
+  ELSE LET cls == IF B(4) = 1 THEN 32 ELSE 64   le == B(5) = 1 IN
+       IF L < 16 + SizeOf(EhdrF, cls) THEN <<>>
+       ELSE LET fis == {fi \in 1..Len(EhdrF) : EhdrF[fi][1] \in CtorFields} IN
+            [m \in 1..Cardinality(fis) |-> HdrClass(B, cls, le, CHOOSE fi \in fis : Cardinality({x \in fis : x < fi}) = m - 1, L)]
+RandTraits(k) ==
+  LET B(i) == Rand[k][i + 1]   L == Len(Rand[k]) IN
+  IF L < 6 \/ B(4) \notin {1, 2} \/ B(5) \notin {1, 2} \/ L < 16 + SizeOf(EhdrF, IF B(4) = 1 THEN 32 ELSE 64) THEN {}
+  ELSE LET cls == IF B(4) = 1 THEN 32 ELSE 64   le == B(5) = 1 IN
+       {IF FN(B, 16, EhdrF, cls, le, "e_phoff") = 0 THEN "no phtable" ELSE "phtable", IF FN(B, 16, EhdrF, cls, le, "e_shoff") = 0 THEN "no shtable" ELSE "shtable"}
+
 (* ------------------------------- emission ------------------------------ *)
 FaultStr(s, f) == CASE f[1] = "F" -> LET e == SeedTab[s].sf[f[2]] IN e.role \o "[" \o ToString(e.idx) \o "]." \o e.field \o "=" \o e.cls
                     [] f[1] = "S" -> "byte[" \o ToString(f[2]) \o "]" \o f[3]
@@ -453,7 +485,8 @@ PlanLine == [k |-> "plan", s |-> sd, f |-> [i \in 1..Len(fs) |-> FaultStr(sd, fs
              sf |-> [i \in 1..Len(fs) |-> IF fs[i][1] = "F" THEN fs[i][2] ELSE 0],
              t |-> IF fs[Len(fs)][1] = "T" THEN fs[Len(fs)][2] ELSE -1,
              p |-> [i \in 1..Len(Patches(sd, fs)) |-> <<Patches(sd, fs)[i].off, Patches(sd, fs)[i].b>>],
-             m |-> LET r == PlanModel(sd, fs) IN <<r.res, r.step, r.why>>]
+             m |-> LET r == PlanModel(sd, fs) IN <<r.res, r.step, r.why>>,
+             h |-> Flat([i \in 1..Len(fs) |-> IF fs[i][1] = "S" THEN SubstHit(sd, fs[i]) ELSE <<>>])]
 SeedLines(s) ==
   LET L == SeedTab[s].L   bs == Seeds[s].bytes   nsl == (Len(bs) + 1023) \div 1024 IN
   /\ CSVWrite("%1$s", <<ToJson([k |-> "seed", s |-> s, id |-> Seeds[s].id, size |-> L.size, synth |-> Seeds[s].synth, cls |-> L.cls, le |-> L.le,
@@ -472,7 +505,8 @@ Emit == IF fs = <<>> THEN SeedLines(sd) ELSE CSVWrite("%1$s", <<ToJson(PlanLine)
 RandInit == sd \in 1..Len(Rand) /\ fs = <<>>
 RandNext == FALSE /\ UNCHANGED vars
 RandSpec == RandInit /\ [][RandNext]_vars
-RandEmit == LET r == RandModel(sd) IN CSVWrite("%1$s", <<ToJson([k |-> "rand", i |-> sd, m |-> <<r.res, r.step, r.why>>])>>, IOEnv.OUT)
+RandEmit == LET r == RandModel(sd) IN CSVWrite("%1$s", <<ToJson([k |-> "rand", i |-> sd, m |-> <<r.res, r.step, r.why>>, h |-> RandHits(sd),
+                                                                traits |-> RandTraits(sd)])>>, IOEnv.OUT)
 
 (* ------------------------------ properties ----------------------------- *)
 TypeOK == sd \in 1..NSeeds /\ Len(fs) <= MaxFaults
